@@ -459,7 +459,10 @@ func (p *exprPrinter) printExpr(e ast.Expr) string {
 		return p.g.printRawExpr(e)
 	}
 	p.exprs[e] = struct{}{}
-	pos := p.g.posInfo(e)
+	// Name the variable after the expression's position in the file itself,
+	// ignoring //line directives: adjusted positions are not unique (a
+	// "//line file:N" comment resets the line and drops the column).
+	pos := p.g.fset.PositionFor(e.Pos(), false)
 	return fmt.Sprintf("_%d_%d", pos.Line, pos.Column)
 }
 
